@@ -215,6 +215,7 @@ Proof.
     destruct (if cmd =? SmppCommand_GENERIC_NACK then Ok None
               else match lookup cmd response_command_map with Some oc => Ok (Some oc) | None => Err 5 end) as [oc|];
       [|exact HI].
+    destruct (other_type cmd (fst (pop seq (ms_store s)))); [exact HI|].
     destruct (pop seq (ms_store s)) as [orig st'] eqn:Ep.
     assert (forall x, Zcount x (ids_of (ms_store s)) =
                       (Zcount x (ids_of st') + match orig with Some q => if Z.eq_dec (rq_id q) x then 1 else 0 | None => 0 end)%nat) as Hc.
@@ -270,6 +271,7 @@ Proof.
     destruct (if cmd =? SmppCommand_GENERIC_NACK then Ok None
               else match lookup cmd response_command_map with Some oc => Ok (Some oc) | None => Err 5 end) as [oc|];
       [|exact HK].
+    destruct (other_type cmd (fst (pop seq (ms_store s)))); [exact HK|].
     destruct (pop seq (ms_store s)) as [orig st'] eqn:Ep.
     assert (store_keyed (upd s (ms_pending s) st')) as HK'.
     { intros k q Hin. unfold upd in Hin. cbn [ms_store] in Hin. apply HK.
@@ -315,7 +317,8 @@ Proof.
   intros HK Hs Hin. cbn [step] in Hs. revert Hs.
   destruct (negb (mem cmd handled_response_commands)); [intros Hs; injection Hs as <- <-; destruct Hin|].
   destruct (Z.eqb_spec cmd SmppCommand_GENERIC_NACK) as [En|En].
-  - destruct (pop seq (ms_store s)) as [orig st'] eqn:Ep.
+  - destruct (other_type cmd (fst (pop seq (ms_store s)))); [intros Hs; injection Hs as <- <-; destruct Hin|].
+    destruct (pop seq (ms_store s)) as [orig st'] eqn:Ep.
     destruct orig as [q'|]; [|intros Hs; injection Hs as <- <-; destruct Hin].
     cbn [negb]. cbv iota.
     match goal with |- context [if ?b then _ else _] => destruct b eqn:Ea end;
@@ -326,6 +329,7 @@ Proof.
     repeat split; auto.
   - destruct (lookup cmd response_command_map) as [oc|] eqn:El;
       [|intros Hs; injection Hs as <- <-; destruct Hin as [E|[]]; discriminate].
+    destruct (other_type cmd (fst (pop seq (ms_store s)))); [intros Hs; injection Hs as <- <-; destruct Hin|].
     destruct (pop seq (ms_store s)) as [orig st'] eqn:Ep.
     destruct orig as [q'|]; [|intros Hs; injection Hs as <- <-; destruct Hin].
     destruct (Z.eqb_spec (rq_cmd q') oc) as [Ec|Ec]; cbn [negb]; cbv iota; [|intros Hs; injection Hs as <- <-; destruct Hin].
@@ -345,10 +349,12 @@ Proof.
   cbn [step]. destruct (mem cmd handled_response_commands) eqn:Em; cbn [negb]; [|cbn; auto].
   apply mem_In in Em. pose proof handled_responses_have_originals as H. rewrite forallb_forall in H.
   specialize (H _ Em). destruct (cmd =? SmppCommand_GENERIC_NACK); cbn [orb] in H.
-  - destruct (pop seq (ms_store s)) as [[q|] st']; cbn [negb];
+  - destruct (other_type _ (fst (pop seq (ms_store s)))); [cbn; auto|].
+    destruct (pop seq (ms_store s)) as [[q|] st']; cbn [negb];
       [destruct (((cmd =? SmppCommand_SUBMIT_SM_RESP) || true) && (rq_cmd q =? SmppCommand_SUBMIT_SM))|];
       cbn; intuition discriminate.
   - destruct (lookup cmd response_command_map) as [oc|]; [|discriminate].
+    destruct (other_type _ (fst (pop seq (ms_store s)))); [cbn; auto|].
     destruct (pop seq (ms_store s)) as [[q|] st'];
       [destruct (negb (rq_cmd q =? oc));
        [|destruct (((cmd =? SmppCommand_SUBMIT_SM_RESP) || false) && (rq_cmd q =? SmppCommand_SUBMIT_SM))]|];
@@ -366,8 +372,10 @@ Proof.
   destruct H as [H|[q [oc [H [Hn [Hl Hc]]]]]].
   - destruct (if cmd =? SmppCommand_GENERIC_NACK then Ok None
               else match lookup cmd response_command_map with Some oc => Ok (Some oc) | None => Err 5 end); [|reflexivity].
+    destruct (other_type cmd (fst (pop seq (ms_store s)))); [reflexivity|].
     destruct (pop seq (ms_store s)) as [orig st']. cbn [fst] in H. subst orig. reflexivity.
   - apply Z.eqb_neq in Hn. rewrite Hn, Hl.
+    destruct (other_type cmd (fst (pop seq (ms_store s)))); [reflexivity|].
     destruct (pop seq (ms_store s)) as [orig st']. cbn [fst] in H. subst orig.
     apply Z.eqb_neq in Hc. rewrite Hc. reflexivity.
 Qed.
@@ -455,6 +463,7 @@ Proof.
     destruct (if cmd =? SmppCommand_GENERIC_NACK then Ok None
               else match lookup cmd response_command_map with Some oc => Ok (Some oc) | None => Err 5 end) as [oc|];
       [|exact HT].
+    destruct (other_type cmd (fst (pop seq (ms_store s)))); [exact HT|].
     destruct (pop seq (ms_store s)) as [orig st'] eqn:Ep.
     assert (Tracked g0 (upd s (ms_pending s) st')) as HT'.
     { apply (Tracked_shrink g0 s); [exact HT|reflexivity|reflexivity|].
@@ -505,3 +514,19 @@ Qed.
 Lemma spec_range : MIN_SEQUENCE_NUMBER = 1 /\ MAX_SEQUENCE_NUMBER = 2147483647
                    /\ seqgen_default_min = 1 /\ seqgen_default_max = 2147483647.
 Proof. vm_compute. repeat split; reflexivity. Qed.
+
+(* a response of another type than the request stored under its number (and not a generic_nack) changes nothing: the request
+   stays outstanding for its own response, or for its time-out *)
+Theorem other_type_leaves_request s cmd seq q :
+  fst (pop seq (ms_store s)) = Some q -> cmd <> SmppCommand_GENERIC_NACK ->
+  lookup (rq_cmd q) command_response_map <> Some cmd ->
+  fst (step s (EResp cmd seq)) = s /\ attributed_ids (snd (step s (EResp cmd seq))) = [].
+Proof.
+  intros Hp Hn Hl. cbn [step]. destruct (negb (mem cmd handled_response_commands)); [split; reflexivity|].
+  apply Z.eqb_neq in Hn. rewrite Hn.
+  destruct (lookup cmd response_command_map) as [oc|]; [|split; reflexivity].
+  assert (other_type cmd (fst (pop seq (ms_store s))) = true) as ->; [|split; reflexivity].
+  rewrite Hp. unfold other_type. rewrite Hn. cbn [negb andb].
+  destruct (lookup (rq_cmd q) command_response_map) as [c|]; [|reflexivity].
+  destruct (Z.eqb_spec c cmd) as [->|Hc]; [contradiction Hl; reflexivity|reflexivity].
+Qed.
